@@ -16,7 +16,7 @@ REQUIRED = (["vsop_pos", "geometric_vsop_pos", "apparent_vsop_pos", "orbital_ele
             + ["Earth.geometric_heliocentric_position_j2000"])
 THEOREMS = ["C07_series_evaluator", "C07_horner_is_direct_sum", "C07_vsop_longitude_range",
             "C07_fk5_correction", "C07_fk5_size", "C07_aberration", "C07_corrected_longitude_range",
-            "C07_mean_longitude_rate", "C07_kepler_third_law"]
+            "C07_table_constants", "C07_earth_j2000_rate"]
 PROOF_TIMEOUT = {"quick": 2000, "thorough": 3000}
 EXHAUSTIVE = False
 MANIFEST = {
@@ -54,7 +54,7 @@ CLAUSES = {
 
 
 def proof_files(tier):
-    return ["C07_lib.v", "C07_series.v", "C07_corr.v", "C07_const.v", "C07.v"]
+    return ["C07_defs.v", "C07_lib.v", "C07_angle.v", "C07_series.v", "C07_corr.v", "C07_const.v", "C07.v"]
 
 
 # ------------------------------------------------------------------ numbers of the property text
@@ -426,9 +426,9 @@ def search(rng, tier, deep):
     cx = Ctx()
     thorough = tier == "thorough"
     big = thorough or deep
-    n_epochs = 40 if not big else (400 if not thorough else 1500)
-    n_seams = 2 if not big else 8
-    n_cont = 6 if not big else 200
+    n_epochs = 100 if not big else (400 if not thorough else 1500)
+    n_seams = 3 if not big else 8
+    n_cont = 12 if not big else 200
     lo, hi = jde_of_year(-2000), jde_of_year(4000)
     for p in PLANETS:
         check_constants(cx, p)
